@@ -403,7 +403,7 @@ def main():
         rep["replay_known"] = [k for k in known.get("findings", []) if k["property"] == pid and k.get("status") == "open" and k.get("kind") == "replay"]
         for k in rep["replay_known"]:
             print("KNOWN-FINDING: property=%s %s [input: %s; replay %s %s]" % (pid, k["what"], k.get("input", ""), k.get("canary") or k.get("script"), k.get("test", "")))
-        budget = [240.0 if tier == "quick" else 900.0]
+        budget = [float(os.environ.get("VERIF_CONC_BUDGET") or (240.0 if tier == "quick" else 900.0))]
         for o in rep["violations"]:
             conc = concretise(o, workdir, budget)
             path = write_replay(pid, o, workdir, conc=conc)
